@@ -8,7 +8,7 @@ import lib
 from lib import qlit, zlist, zlit, coq_list, coq_bool
 
 IMPORTS = ("From Coq Require Import List ZArith QArith Bool.\nImport ListNotations.\n"
-           "From CE Require Import Model.Harness Model.KnnCounts Model.Itv Model.GeoKnn.\nOpen Scope Z_scope.\n")
+           "From CE Require Import Model.Harness Model.KnnCounts Model.Itv Model.GeoKnn Model.GeoEllipsoid.\nOpen Scope Z_scope.\n")
 TOL = 1e-8                      # the property's tolerance
 TOLQ = "1, 100000000"
 BALL = {1: 2.0, 2: math.pi, 3: 4 * math.pi / 3, 4: math.pi ** 2 / 2, 5: 8 * math.pi ** 2 / 15}
@@ -202,9 +202,11 @@ def run(chk):
     chk.trusted += [
         "Coq 8.16.1 kernel + vm_compute; Coq-Interval (BigZ floats, 80 bits) for the enclosures; stdlib real axioms",
         "Model/GeoKnn.v tied by correspondence (no translator on these anchors)",
-        "numpy.linalg.svd is an ORACLE for d >= 2: its singular values are recorded by a spy, accepted only after a numeric check "
-        "(reconstruction, orthogonality <= 1e-10, ordering) and enter the model as exact rationals (squares of the floats); the inside-count "
-        "of the ellipsoid test is recomputed by the harness from the checked factors; for d = 1 both are computed exactly inside Coq",
+        "numpy.linalg.svd is an ORACLE for d >= 3: its singular values are recorded by a spy, accepted only after a numeric check "
+        "(reconstruction, orthogonality <= 1e-10, ordering) and enter the model as exact rationals (squares of the floats); the inside-counts "
+        "derived from the checked factors are compared with an exact rational evaluation of the ellipsoid test inside Coq "
+        "(Model/GeoEllipsoid.v, an executable function without a proved specification); for d = 1 and d = 2 the value is "
+        "additionally enclosed with NO recorded SVD data (d = 1: exact rational; d = 2: closed form with a square root)",
         "harness/props/C12.py: scaling of dyadic samples to integers, recovery of the neighbour lists from the spy's SVD inputs, "
         "the explicit-loop evaluation of the published formula used as the property predicate, the genericity filter",
         "scipy cdist / gamma are compared, not modelled"]
@@ -213,7 +215,7 @@ def run(chk):
         "generic samples: no `> 1e-12` guard within a factor 10 of flipping and no ellipsoid test within 1e-6 of its boundary "
         "(a neighbourhood with k < d has exact zero singular values; shifts beyond ~1e4 x the data scale lift their rounding noise "
         "over the absolute guard -- outside the property, see claims)",
-        "theorems: SVD data are hypotheses for d >= 2 (unchanged by isometries/row order, squares homogeneous of degree 2, guards stable)"]
+        "theorems: the SVD data are hypotheses for d >= 2 (unchanged by isometries/row order, squares homogeneous of degree 2, guards stable); none for d = 1"]
 
     def H(X, k):
         X = np.ascontiguousarray(X, dtype=float)
@@ -223,6 +225,8 @@ def run(chk):
     ec, ep, ed = [], [], []                 # entropy cases on recorded SVD data
     sc, sp_, sd = [], [], []                # skeleton cases
     oc, op_, od = [], [], []                # d = 1 cases without any oracle
+    tc, tp, td_ = [], [], []                # d = 2 cases without any oracle (closed form with sqrt)
+    xc, xd = [], []                         # inside-counts against the exact rational ellipsoid test
 
     def add_entropy_case(P, S_, k, tag, law_ref=None):
         """run the implementation on P / S_ with the spy; law_ref = (value of the base sample, expected difference, what)"""
@@ -254,6 +258,13 @@ def run(chk):
         sc.append(f"({k}%nat, {pts_term(P)}, {coq_list([pts_term(nb) for nb in nbl])}, {zlist(insl)})")
         sp_.append(None)
         sd.append(desc)
+        if tag == "base" or not quick:          # the transformed copies have the same counts; they are re-checked in the thorough tier
+            xc.append(f"({d}%nat, {k}%nat, {pts_term(P)}, {zlist(insl)})")
+            xd.append(desc)
+        if d == 2:
+            tc.append(f"({S_}, {k}%nat, {pts_term(P)}, {val_q(h)}, {TOLQ})")
+            tp.append(fail)
+            td_.append(desc)
         if d == 1:
             oc.append(f"({S_}, {k}%nat, {pts_term(P)}, {val_q(h)}, {TOLQ})")
             op_.append(fail)
@@ -296,8 +307,12 @@ def run(chk):
                    lambda i: ed[i], shard=3 if quick else 8, jobs=6, timeout=1500)
     lib.correspond(chk, "neighbour_sets_radii_and_d1_inside_counts_exact", IMPORTS, "nat * list point * list (list point) * list Z",
                    "check_skel_case", sc, sp_, lambda i: sd[i], shard=40 if quick else 100, jobs=6)
+    lib.correspond(chk, "inside_counts_equal_exact_rational_ellipsoid_test", IMPORTS, "nat * nat * list point * list Z", "check_ins_case",
+                   xc, [None] * len(xc), lambda i: xd[i], shard=1 if quick else 6, jobs=6)
     lib.correspond(chk, "d1_entropy_in_enclosure_without_oracle", IMPORTS, "Z * nat * list point * Z * Z * Z * Z", "check_geo1_case", oc, op_,
                    lambda i: od[i], shard=10, jobs=6)
+    lib.correspond(chk, "d2_entropy_in_enclosure_without_oracle", IMPORTS, "Z * nat * list point * Z * Z * Z * Z", "check_geo2_case", tc, tp,
+                   lambda i: td_[i], shard=2 if quick else 6, jobs=6)
     # negative control: the enclosure check must reject a value that is off by 1e-6
     if ec:
         body = ec[0].rsplit(", ", 4)[0][1:]
